@@ -143,7 +143,7 @@ Definition apply_updater (u : updater) (now : Z) (container : value) (name : str
               match nth_error xs (Z.to_nat i) with
               | None => Ok container
               | Some (VArr ys) => Ok (VArr (set_nth (Z.to_nat i) (VArr (pop_list ys arg)) xs))
-              | Some _ => Err ECrash
+              | Some v => if truthy v then Err ECrash else Ok container   (* `if not list_instance: return` *)
               end
           end
       | _ => Ok container
@@ -264,8 +264,10 @@ Fixpoint insert_by {A} (lt : A -> A -> res bool) (x : A) (l : list A) : res (lis
   match l with
   | [] => Ok [x]
   | y :: l' =>
-      let! b := lt x y in
-      if b then Ok (x :: l) else let! r := insert_by lt x l' in Ok (y :: r)
+      (* x comes from an earlier position than every element of l: it goes past y only
+         when y is strictly smaller (stability) *)
+      let! b := lt y x in
+      if b then let! r := insert_by lt x l' in Ok (y :: r) else Ok (x :: l)
   end.
 Fixpoint sort_by {A} (lt : A -> A -> res bool) (l : list A) : res (list A) :=
   match l with
@@ -382,6 +384,7 @@ Definition add_to_set_one (doc : value) (field : string) (arg : value) : res val
           match assoc name fs with
           | None => Ok (VDoc (set_key name (VArr (upd [])) fs))
           | Some (VArr xs) => Ok (VDoc (set_key name (VArr (upd xs)) fs))
+          | Some (VStr _) | Some (VDoc _) => Err EUnmodelled   (* `in` = substring / key test *)
           | Some _ => Err ECrash
           end
       | _ => Err ECrash
@@ -393,6 +396,7 @@ Definition add_to_set_one (doc : value) (field : string) (arg : value) : res val
             match assoc last fs with
             | None => Ok (VDoc (set_key last (VArr (upd [])) fs))
             | Some (VArr xs) => Ok (VDoc (set_key last (VArr (upd xs)) fs))
+            | Some (VStr _) | Some (VDoc _) => Err EUnmodelled
             | Some _ => Err ECrash
             end
         | _ => Err EUnmodelled
@@ -447,6 +451,11 @@ Fixpoint pull_walk (parts : list string) (doc : value) (f : list value -> res (l
           | None => Ok doc        (* break: arr stays at this dict: not a list -> continue *)
           end
       | VArr _ => Err EUnmodelled (* `field_part not in arr` on a list compares values *)
+      | VStr str =>                 (* `field_part not in arr` on a str is a substring test *)
+          match String.index 0 p str with
+          | None => Ok doc
+          | Some _ => Err ECrash
+          end
       | _ => Err ECrash
       end
   end.
